@@ -408,5 +408,4 @@ def gen(rng, tier):
     yield from _entry_points(rng, _gen_main(rng, tier))
     yield from _gen_prim(rng, tier)
     if tier == "thorough":
-        yield from _ws.to_f64(rng)
         yield from _sweep_to_f64(rng)
